@@ -15,7 +15,7 @@ import (
 func init() { register("C12", runC12) }
 
 func runC12(c *mon.Ctx) {
-	c.Cases(func(i int, r *mon.Rand) { c12Life(c, r) })
+	c.Cases(func(i int, r *mon.Rand) { c12Life(c, r, "") })
 }
 
 type c12Batch struct {
@@ -26,7 +26,10 @@ type c12Batch struct {
 	Overhead   int32
 }
 
-func c12Life(c *mon.Ctx, r *mon.Rand) {
+// c12Life runs one reporter lifetime. force == "reporter-size" (used by C16)
+// restricts it to the part decided by the batch observer alone: a dead-port
+// destination and identities that share name and tags across kinds.
+func c12Life(c *mon.Ctx, r *mon.Rand, force string) {
 	proto := m3.Compact
 	if r.Bool() {
 		proto = m3.Binary
@@ -59,7 +62,16 @@ func c12Life(c *mon.Ctx, r *mon.Rand) {
 	if r.Chance(1, 3) {
 		opts.HistogramBucketTagPrecision = uint(r.Range(1, 12))
 	}
-	traffic := []string{"mixed", "histogram-only", "counters", "long-names", "many-tags"}[r.Intn(5)]
+	if r.Chance(1, 3) {
+		opts.IncludeHost = true // one more common tag, resolved by the reporter itself
+	}
+	if r.Chance(1, 4) {
+		opts.InternalTags = map[string]string{"it" + genBytes(r, 8): genBytes(r, 40)}
+	}
+	traffic := []string{"mixed", "histogram-only", "counters", "long-names", "many-tags", "shared-identities"}[r.Intn(6)]
+	if force == "reporter-size" && r.Bool() {
+		traffic = "shared-identities"
+	}
 	nIdents := r.Range(1, 40)
 	idents := make([]m3Ident, nIdents)
 	for i := range idents {
@@ -97,10 +109,15 @@ func c12Life(c *mon.Ctx, r *mon.Rand) {
 				id.V = r.ValueSpec(20)
 			}
 		}
+		if i > 0 && (traffic == "shared-identities" && r.Bool() || r.Chance(1, 12)) {
+			// the same name and tags as an earlier metric, any kind (often another one)
+			prev := idents[r.Intn(i)]
+			id.Name, id.Tags = prev.Name, prev.Tags
+		}
 		idents[i] = id
 	}
 	nCalls := r.Range(50, 3000)
-	desc := map[string]interface{}{"protocol": protoName(proto), "queue": opts.MaxQueueSize, "max_packet": opts.MaxPacketSizeBytes, "common_tags": nCommon,
+	desc := map[string]interface{}{"protocol": protoName(proto), "queue": opts.MaxQueueSize, "max_packet": opts.MaxPacketSizeBytes, "common_tags": nCommon, "include_host": opts.IncludeHost, "internal_tags": len(opts.InternalTags),
 		"traffic": traffic, "identities": nIdents, "calls": nCalls, "bucket_tag_names": fmt.Sprintf("%q/%q", opts.HistogramBucketIDName, opts.HistogramBucketName)}
 	c.LogCase(fmt.Sprint(desc))
 	stopWatch := c.Watchdog(300*time.Second, "m3-call-or-close-does-not-return", desc)
@@ -144,7 +161,7 @@ func c12Life(c *mon.Ctx, r *mon.Rand) {
 
 	// every sixth lifetime sends to a dead port: write errors must not disturb
 	// the accounting (checked through the batch observer alone)
-	deadPort := r.Chance(1, 6)
+	deadPort := r.Chance(1, 6) || force == "reporter-size"
 	nSinks := 1
 	if deadPort {
 		nSinks = 0
